@@ -9,7 +9,8 @@ import json, os, shutil, subprocess, sys, time
 pid, k = sys.argv[1], sys.argv[2]
 extra = sys.argv[3:]
 wt = '/tmp/wt_%s' % pid
-src = '/tmp/seed_out/%s' % pid
+tag = os.environ.get('SEED_TAG', '')  # e.g. 'r3' for the third round: source dir /tmp/seed_out/r3_<ID>
+src = '/tmp/seed_out/%s%s' % (tag + '_' if tag else '', pid)
 patch = os.path.join(src, 'patch%s.diff' % k)
 demo = os.path.join(src, 'demo%s.rs' % k)
 env = dict(os.environ, CARGO_NET_OFFLINE='true')
@@ -61,7 +62,7 @@ res['checks'] = checks
 clean()
 shutil.rmtree('/tmp/verif-alt-evidence-%s' % pid, ignore_errors=True)
 shutil.rmtree(snap, ignore_errors=True)
-dst = '/verif/seeded/%s-%s' % (pid, k)
+dst = '/verif/seeded/%s-%s%s' % (pid, tag + '-' if tag else '', k)
 os.makedirs(dst, exist_ok=True)
 shutil.copy(patch, os.path.join(dst, 'patch.diff'))
 shutil.copy(demo, os.path.join(dst, 'demo.rs'))
